@@ -9,6 +9,7 @@ import (
 	"io"
 	"sync"
 	"sync/atomic"
+	"syscall"
 	"time"
 
 	"verifharness/tracer"
@@ -133,6 +134,7 @@ type Cmd struct {
 	mu        sync.Mutex
 	started   bool
 	dead      bool
+	reaped    bool // Wait() has returned: like a real pid, the command can no longer be signalled
 	exitCode  int
 	exited    chan struct{}
 	env       []string
@@ -328,7 +330,12 @@ func (c *Cmd) Stop(sig int, parentOnly bool) error {
 	}
 	lat := c.B.StopLatency
 	code := c.B.SigCode
+	reaped := c.reaped
 	c.mu.Unlock()
+	if reaped {
+		// what CmdWrapper.Stop returns once the process has been waited for (getpgid / kill: ESRCH)
+		return syscall.ESRCH
+	}
 	if kills {
 		if sig == 9 {
 			lat = 0
@@ -368,6 +375,9 @@ func (c *Cmd) Wait() error {
 	if c.errR != nil {
 		_ = c.errR.Close()
 	}
+	c.mu.Lock()
+	c.reaped = true
+	c.mu.Unlock()
 	return nil
 }
 
